@@ -82,7 +82,7 @@ Section Subset.
     unfold result_events, resolve_tail, r_apply. simpl. intro H.
     apply apply_events_values in H as [H|H]; [|auto].
     apply auth_and_apply_values in H as [H|H]; [|right; right; left; eapply mainline_order_in; eauto].
-    apply auth_and_apply_values in H as [H|H]; [auto|right; left; eapply power_order_in; eauto].
+    apply auth_and_apply_values in H as [H|H]; [auto|right; left; apply dedup_in; eapply power_order_in; eauto].
   Qed.
 
   (* ---------- the split hands out events of the state sets ---------- *)
@@ -133,18 +133,6 @@ Section Subset.
     apply IH. intros x Hx. apply in_app_or in Hx as [Hx|[<-|[]]]; [auto|eapply find_event_in; eauto].
   Qed.
 
-  Lemma subgraph_walk_sub depth authmap conflicted : forall curr visiting x,
-    In x (subgraph_walk depth authmap conflicted curr visiting) -> In x authmap.
-  Proof.
-    induction depth as [|d IH]; intros curr visiting x; simpl.
-    - destruct (has_event _ _); [apply lookup_ids_in|intros []].
-    - apply (fold_left_inv _ (fun acc => forall x, In x acc -> In x authmap)).
-      + apply union_events_sub; [intros ? []|].
-        destruct (has_event _ _); [intros y; apply lookup_ids_in|intros ? []].
-      + intros acc k Hacc _. destruct (find_event k authmap); [|exact Hacc].
-        apply union_events_sub; [exact Hacc|]. intros y. apply IH.
-  Qed.
-
   Lemma auth_difference_new_sub v21 authmap conflicted sets x :
     In x (auth_difference_new shE v21 authmap conflicted sets) -> In x authmap.
   Proof.
@@ -166,7 +154,7 @@ Section Subset.
     unfold conflicted_subgraph.
     apply (fold_left_inv _ (fun acc => forall y, In y acc -> In y authmap)); [intros ? []|].
     intros acc' p Hacc' _. destruct (has_event _ _); [|exact Hacc'].
-    apply union_events_sub; [exact Hacc'|]. intro y. apply subgraph_walk_sub.
+    apply union_events_sub; [exact Hacc'|]. intro y. apply lookup_ids_in.
   Qed.
 
   (* ---------- the control set ---------- *)
@@ -209,20 +197,21 @@ Section Subset.
     assert (Hfull : forall y, In y full -> In y (concat sets) \/ In y auth_events).
     { intros y Hy. unfold full in Hy. apply in_app_or in Hy as [Hy|Hy]; [auto|].
       right. apply auth_difference_new_sub in Hy. apply dedup_in. exact Hy. }
-    set (control := control_events (dedup_events (fst cu)) (snd cu) full).
-    assert (Hctl : forall y, In y control -> In y (concat sets) \/ In y auth_events).
-    { intros y Hy. apply control_events_sub in Hy as [Hy|Hy]; [auto|]. left. apply Hc, dedup_in. exact Hy. }
-    assert (Hoth : forall y, In y (other_events (snd cu) full control) -> In y (concat sets) \/ In y auth_events).
-    { intros y Hy. unfold other_events in Hy. apply filter_In in Hy as [Hy _]. auto. }
-    destruct (fst cu) eqn:E1; destruct (snd cu) eqn:E2; destruct auth_events eqn:E3;
-      try (intros []); fold authmap; rewrite <- ?E1, <- ?E2, <- ?E3 in *; fold full; fold control;
-      destruct v21; intro H; apply resolve_tail_values in H; simpl in H;
-      repeat match goal with
-             | H : _ \/ _ |- _ => destruct H as [H|H]
-             | H : False |- _ => destruct H
-             end; auto;
-      try (apply apply_events_values in H as [[]|H]);
-      try (apply power_order_in in H); auto.
+    assert (Hctl : forall skip y, In y (control_events (dedup_events (fst cu)) skip full) -> In y (concat sets) \/ In y auth_events).
+    { intros skip y Hy. apply control_events_sub in Hy as [Hy|Hy]; [auto|]. left. apply Hc, dedup_in. exact Hy. }
+    assert (Hoth : forall skip ctl y, In y (other_events skip full ctl) -> In y (concat sets) \/ In y auth_events).
+    { intros skip ctl y Hy. unfold other_events in Hy. apply filter_In in Hy as [Hy _]. auto. }
+    assert (M : forall (A B : Type) (c u a : list A) (X Y : B) (P : B -> Prop),
+               P X -> P Y -> P (match c, u, a with [], [], [] => X | _, _, _ => Y end)).
+    { intros A B c u a X Y P HX HY. destruct c, u, a; assumption. }
+    apply (M _ _ (fst cu) (snd cu) auth_events _ _
+             (fun r => In x (result_events r) -> In x (concat sets) \/ In x auth_events)); [intros []|].
+    fold authmap full. destruct v21; intro H; apply resolve_tail_values in H; cbn [r_state] in H.
+    - destruct H as [[]|[H|[H|H]]]; eauto.
+    - destruct H as [H|[H|[H|H]]]; eauto.
+      + unfold r_apply in H. cbn [r_state] in H. apply apply_events_values in H as [[]|H].
+        apply power_order_in in H. apply dedup_in in H. auto.
+      + apply power_order_in in H. apply dedup_in in H. auto.
   Qed.
 
   (* the same argument for any predicate: what holds of the state-set events and of the auth
@@ -242,19 +231,19 @@ Section Subset.
     set (full := fst cu ++ auth_difference_new shE v21 authmap (fst cu) sets).
     assert (Hfull : forall y, In y full -> P y).
     { intros y Hy. unfold full in Hy. apply in_app_or in Hy as [Hy|Hy]; auto. }
-    set (control := control_events (dedup_events (fst cu)) (snd cu) full).
-    assert (Hctl : forall y, In y control -> P y).
-    { intros y Hy. apply control_events_sub in Hy as [Hy|Hy]; [auto|]. apply Hc, dedup_in. exact Hy. }
-    assert (Hoth : forall y, In y (other_events (snd cu) full control) -> P y).
-    { intros y Hy. unfold other_events in Hy. apply filter_In in Hy as [Hy _]. auto. }
-    destruct (fst cu) eqn:E1; destruct (snd cu) eqn:E2; destruct auth_events eqn:E3;
-      try (intros []); fold authmap; rewrite <- ?E1, <- ?E2, <- ?E3 in *; fold full; fold control;
-      destruct v21; intro H; apply resolve_tail_values in H; simpl in H;
-      repeat match goal with
-             | H : _ \/ _ |- _ => destruct H as [H|H]
-             | H : False |- _ => destruct H
-             end; auto;
-      try (apply apply_events_values in H as [[]|H]);
-      try (apply power_order_in in H); auto.
+    assert (Hctl : forall skip y, In y (control_events (dedup_events (fst cu)) skip full) -> P y).
+    { intros skip y Hy. apply control_events_sub in Hy as [Hy|Hy]; [auto|]. apply Hc, dedup_in. exact Hy. }
+    assert (Hoth : forall skip ctl y, In y (other_events skip full ctl) -> P y).
+    { intros skip ctl y Hy. unfold other_events in Hy. apply filter_In in Hy as [Hy _]. auto. }
+    assert (M : forall (A B : Type) (c u a : list A) (X Y : B) (Q : B -> Prop),
+               Q X -> Q Y -> Q (match c, u, a with [], [], [] => X | _, _, _ => Y end)).
+    { intros A B c u a X Y Q HX HY. destruct c, u, a; assumption. }
+    apply (M _ _ (fst cu) (snd cu) auth_events _ _ (fun r => In x (result_events r) -> P x)); [intros []|].
+    fold authmap full. destruct v21; intro H; apply resolve_tail_values in H; cbn [r_state] in H.
+    - destruct H as [[]|[H|[H|H]]]; eauto.
+    - destruct H as [H|[H|[H|H]]]; eauto.
+      + unfold r_apply in H. cbn [r_state] in H. apply apply_events_values in H as [[]|H].
+        apply power_order_in in H. apply dedup_in in H. auto.
+      + apply power_order_in in H. apply dedup_in in H. auto.
   Qed.
 End Subset.
